@@ -170,6 +170,7 @@ M("c13-snr-first-template", "C13", FI, "        self._best_snr = self._convs[sel
 # ---- C14
 M("c14-even-pad", "C14", ST, "        (window // 2, window // 2) if window % 2 else (window // 2, window // 2 - 1)", "        (window // 2, window // 2) if window % 2 else (window // 2 - 1, window // 2 - 1)", "even windows padded one short on the left: output shifted and one sample short")
 M("c14-reflect-not-symmetric", "C14", ST, '    padded_ar = np.pad(array, pad_size, "symmetric")', '    padded_ar = np.pad(array, pad_size, "reflect") if array.size > max(pad_size) else np.pad(array, pad_size, "symmetric")')
+M("c14-detrend-int-overflow", "C14", K, "    x_sq_sum = x_sum * (2 * m - 1) / 3", "    x_sq_sum = m * (m - 1) * (2 * m - 1) / 6", "original defect repaired by ba8ec2f: wraps for m > 1.66e6")
 M("c14-flat-dims", "C14", K, "            pos = dim2 * i * factor1 + j * factor2", "            pos = dim1 * i * factor1 + j * factor2", "row stride uses dim1: wrong for non-square shapes")
 M("c14-2d-remainder", "C14", ST, "        array[: new_dim1 * factor1, : new_dim2 * factor2].reshape(new_shape),", "        array[dim1 - new_dim1 * factor1 :, : new_dim2 * factor2].reshape(new_shape),", "2-D decimation drops the leading instead of the trailing remainder rows")
 M("c14-detrend-xsq", "C14", K, "    x_sq_sum = m * (m - 1) * (2 * m - 1) / 6", "    x_sq_sum = m * (m - 1) * (2 * m + 1) / 6")
